@@ -7,7 +7,8 @@
  *
  *   drbg <oracle> <reqs>  -> "<r1> <r2> ... | K=.. V=.. c=.. i=.. used=.. ent=.."
  *
- * -DDRV_FILL build: util/entropy.c is #included instead and linked with --wrap=read;
+ * -DDRV_FILL build: the repository's util/entropy.c is linked (public API only: the cookie comes
+ * from entropy_read_init) with --wrap=open,open64,read,close;
  *   fill <buflen> <answers> -> "ok <hex> used=<k>" | "fail used=<k>"
  *
  * -DDRV_OS build: crypto_entropy.c is #included, the REAL util/entropy.c of the repository is
@@ -18,6 +19,12 @@
  * session = <o|x>:<reads>:<closes> (see model/drbg_main.ml).  The wrappers also check that the
  * device is "/dev/urandom" opened read-only, that read and close are given the descriptor open
  * returned, and that every read asks exactly for the unfilled rest of one buffer.
+ *
+ * -DDRV_BLACKBOX (with the default or the DRV_OS build): crypto_entropy.c is NOT #included but
+ * compiled and linked as it is; nothing file-local is named.  Every case runs in a forked child
+ * (a fresh copy of the zero-initialised statics) and the result line has no K= V= c= i= part:
+ * return codes, output bytes and the consumption of the entropy source are what is compared.
+ * Used when the white-box build does not compile (file-local names changed).
  */
 #include "drv_common.h"
 
@@ -26,7 +33,7 @@
 
 #ifdef DRV_FILL
 /* ======================= util/entropy.c: entropy_read_fill ======================= */
-#include "entropy.c"
+#include "entropy.h"
 
 #define MAXANS 64
 static struct { int kind; uint8_t * data; size_t len; } ans[MAXANS];	/* kind: 0 bytes, 1 error */
@@ -34,13 +41,22 @@ static int nans, ans_pos;
 static int bad_request;		/* read() asked for more than remains / wrong pointer */
 static uint8_t * fill_buf; static size_t fill_len, fill_off;
 
+/* the device opens and closes without incident here; DRV_OS scripts those too */
+int __wrap_open(const char *, int, ...);
+int __wrap_open64(const char *, int, ...);
+int __wrap_close(int);
+int __wrap_open(const char * path, int flags, ...) { (void)path; (void)flags; return (12345); }
+int __wrap_open64(const char * path, int flags, ...) { (void)path; (void)flags; return (12345); }
+int __wrap_close(int fd) { (void)fd; return (0); }
+
 ssize_t __wrap_read(int, void *, size_t);
 ssize_t
 __wrap_read(int fd, void * buf, size_t n)
 {
 	size_t k;
 
-	(void)fd;
+	if (fd != 12345)
+		bad_request = 1;
 	/* the library must ask exactly for the unfilled rest of the buffer */
 	if ((uint8_t *)buf != fill_buf + fill_off || n != fill_len - fill_off)
 		bad_request = 1;
@@ -64,7 +80,7 @@ __wrap_read(int fd, void * buf, size_t n)
 static void
 fill_case(char * nstr, char * astr)
 {
-	struct entropy_read_cookie er;
+	struct entropy_read_cookie * er;
 	size_t n = (size_t)strtoull(nstr, NULL, 10);
 	char * p = astr; int rc, used, i;
 
@@ -82,9 +98,10 @@ fill_case(char * nstr, char * astr)
 	}
 	fill_buf = malloc(n ? n : 1); fill_len = n; fill_off = 0;
 	memset(fill_buf, 0xaa, n);
-	er.fd = 12345;
-	rc = entropy_read_fill(&er, fill_buf, n);
+	if ((er = entropy_read_init()) == NULL) { printf("init-failed\n"); exit(1); }
+	rc = entropy_read_fill(er, fill_buf, n);
 	used = ans_pos > nans ? nans : ans_pos;
+	if (entropy_read_done(er)) { printf("done-failed\n"); exit(1); }
 	if (bad_request)
 		printf("bad-read-request\n");
 	else if (rc == 0) {
@@ -99,7 +116,13 @@ fill_case(char * nstr, char * astr)
 /* ============ crypto_entropy.c over the real util/entropy.c, system calls scripted ============ */
 #include <fcntl.h>
 #include <stdarg.h>
+#ifdef DRV_BLACKBOX
+#include "cpusupport.h"
+#include "crypto_entropy.h"
+#include "entropy.h"
+#else
 #include "crypto_entropy.c"
+#endif
 
 #ifdef CPUSUPPORT_X86_RDRAND
 #error "drv_drbg must be built with the `none` CPU configuration (no RDRAND mixing)"
@@ -288,8 +311,10 @@ os_case(char * ostr, char * rstr)
 {
 	char * p; int first = 1;
 
+#ifndef DRV_BLACKBOX
 	memset(&drbg, 0, sizeof(drbg));
 	instantiated = 0;
+#endif
 	load_sessions(ostr);
 	p = rstr;
 	if (strcmp(rstr, "-") != 0) {
@@ -309,9 +334,13 @@ os_case(char * ostr, char * rstr)
 			p = q;
 		}
 	}
+#ifdef DRV_BLACKBOX
+	printf(" | used=%d", ss_pos);
+#else
 	printf(" | K="); drv_puthex(drbg.Key, 32);
 	printf(" V="); drv_puthex(drbg.V, 32);
 	printf(" c=%lu i=%d used=%d", (unsigned long)drbg.reseed_counter, instantiated != 0, ss_pos);
+#endif
 	print_sys();
 	free_sessions();
 }
@@ -336,7 +365,13 @@ sess_case(char * nstr, char * sstr)
 
 #else
 /* ======================= crypto/crypto_entropy.c ======================= */
+#ifdef DRV_BLACKBOX
+#include "cpusupport.h"
+#include "crypto_entropy.h"
+#include "entropy.h"
+#else
 #include "crypto_entropy.c"
+#endif
 
 #ifdef CPUSUPPORT_X86_RDRAND
 #error "drv_drbg must be built with the `none` CPU configuration (no RDRAND mixing)"
@@ -371,9 +406,11 @@ drbg_case(char * ostr, char * rstr)
 {
 	char * p; int i, first = 1;
 
+#ifndef DRV_BLACKBOX
 	/* reset the statics: a fresh process */
 	memset(&drbg, 0, sizeof(drbg));
 	instantiated = 0;
+#endif
 	nent = ent_pos = 0; entlog_len = 0; entlog[0] = 0;
 	p = ostr;
 	if (strcmp(ostr, "-") != 0) {
@@ -404,12 +441,33 @@ drbg_case(char * ostr, char * rstr)
 			p = q;
 		}
 	}
+#ifdef DRV_BLACKBOX
+	printf(" | used=%d ent=%s\n", ent_pos, entlog_len ? entlog : "-");
+#else
 	printf(" | K="); drv_puthex(drbg.Key, 32);
 	printf(" V="); drv_puthex(drbg.V, 32);
 	printf(" c=%lu i=%d used=%d ent=%s\n", (unsigned long)drbg.reseed_counter, instantiated != 0,
 	    ent_pos, entlog_len ? entlog : "-");
+#endif
 	for (i = 0; i < nent; i++) free(ent[i].data);
 }
+#endif
+
+#ifdef DRV_BLACKBOX
+#include <sys/wait.h>
+static int child_failed;
+/* run one case in a forked child: a fresh copy of the library's zero-initialised statics */
+#define RUN_CASE(call) do {								\
+	pid_t pid_; int st_ = 0;							\
+	fflush(stdout);									\
+	if ((pid_ = fork()) == 0) { call; fflush(stdout); exit(0); }			\
+	if (pid_ < 0 || waitpid(pid_, &st_, 0) < 0 || !WIFEXITED(st_) || WEXITSTATUS(st_) != 0) { \
+		child_failed = 1;							\
+		printf("<case-process-failed status=%d>\n", st_);			\
+	}										\
+} while (0)
+#else
+#define RUN_CASE(call) call
 #endif
 
 int
@@ -425,15 +483,19 @@ main(void)
 			fill_case(tok[1], tok[2]);
 #elif defined(DRV_OS)
 		if (n == 3 && strcmp(tok[0], "os") == 0)
-			os_case(tok[1], tok[2]);
+			RUN_CASE(os_case(tok[1], tok[2]));
 		else if (n == 3 && strcmp(tok[0], "sess") == 0)
 			sess_case(tok[1], tok[2]);
 #else
 		if (n == 3 && strcmp(tok[0], "drbg") == 0)
-			drbg_case(tok[1], tok[2]);
+			RUN_CASE(drbg_case(tok[1], tok[2]));
 #endif
 		else
 			printf("bad-case\n");
 	}
+#ifdef DRV_BLACKBOX
+	if (child_failed)
+		return (1);
+#endif
 	return (0);
 }
